@@ -381,7 +381,10 @@ int32 parseClientHello(ssl_t *ssl, unsigned char **cp, unsigned char *end)
                @see https://tools.ietf.org/html/rfc7507#section-3.*/
             if (cipher == TLS_FALLBACK_SCSV)
             {
-                if (ssl->peerHelloVersion < psVerGetHighestTls(GET_SUPP_VER(ssl)))
+                /* RFC 7507 covers DTLS as well: compare a DTLS client_version
+                   with our highest DTLS version. */
+                if (ssl->peerHelloVersion < psVerGetHighest(GET_SUPP_VER(ssl),
+                                (ssl->peerHelloVersion & v_dtls_any) ? 1 : 0))
                 {
                     ssl->err = SSL_ALERT_INAPPROPRIATE_FALLBACK;
                     psTraceErrr("Inappropriate version fallback\n");
